@@ -139,7 +139,13 @@ func c02ExpiryRace() *sched.Scenario {
 // a sibling with the same deadline) is still running. kind "chan": ChannelBind(A) with channel timeout 1 s and
 // permission timeout 500 ms, A sends at 1.5 s. kind "perm": CreatePermission[A, B] with timeout 1 s, B sends at 1.5 s.
 func c02SlowDeleteCallback(kind string) *sched.Scenario {
-	return &sched.Scenario{Name: "c02-peer-datagram-during-slow-" + kind + "-deleted-callback", Bound: bound(), FreeBound: 3, Opt: opt,
+	name := "c02-peer-datagram-during-slow-" + kind + "-deleted-callback"
+	tcpAlloc := kind == "perm-tcp"
+	if tcpAlloc {
+		kind = "perm" // the same callback, a TCP allocation: the peer connects instead of sending a datagram
+	}
+
+	return &sched.Scenario{Name: name, Bound: bound(), FreeBound: 3, Opt: opt,
 		Body: func(*vsched.Sched) (func() []string, func()) {
 			cb := func(k string) {
 				if k == kind+"-" {
@@ -155,7 +161,11 @@ func c02SlowDeleteCallback(kind string) *sched.Scenario {
 			pa, pb := w.NewPeer("A"), w.NewPeer("B")
 			var nt notes
 			vsched.Go("client", func() {
-				r := c.Do(wire.Allocate, udp)
+				transport := udp
+				if tcpAlloc {
+					transport = tcp
+				}
+				r := c.Do(wire.Allocate, transport)
 				relay, _ := r.XorAddr(wire.AttrXORRelayedAddress)
 				sender := pa
 				if kind == "perm" {
@@ -167,7 +177,12 @@ func c02SlowDeleteCallback(kind string) *sched.Scenario {
 				vsched.IdleSleep(1500 * time.Millisecond)
 				c.Sock.Drain()
 				vsched.Mark()
-				_, _ = sender.WriteTo([]byte("half-a-second-after-the-deadline"), relay)
+				if tcpAlloc {
+					pb2 := vtx.PeerSpec["B"]
+					_, _ = w.Net.DialTCPAddr(&net.TCPAddr{IP: pb2.IP, Port: 6000}, &net.TCPAddr{IP: relay.IP, Port: relay.Port})
+				} else {
+					_, _ = sender.WriteTo([]byte("half-a-second-after-the-deadline"), relay)
+				}
 				vsched.IdleSleep(5 * time.Second)
 				nt.set("at-client", fmt.Sprint(c.Sock.Pending()))
 			})
@@ -1096,7 +1111,7 @@ func run(t *testing.T, prop string, scs ...*sched.Scenario) {
 }
 
 func TestC02Sched(t *testing.T) {
-	run(t, "C02", c02ExpiryRace(), c07RefreshVsExpiryDir("perm", true), c02SlowDeleteCallback("chan"), c02SlowDeleteCallback("perm"))
+	run(t, "C02", c02ExpiryRace(), c07RefreshVsExpiryDir("perm", true), c02SlowDeleteCallback("chan"), c02SlowDeleteCallback("perm"), c02SlowDeleteCallback("perm-tcp"))
 }
 func TestC19Sched(t *testing.T) {
 	// c06Realloc: the relayed address an Allocate success has just reported must be one that works - also when the
